@@ -30,8 +30,16 @@ UNAVAIL = 'Err(errors::Error::UnavailableChannelId{channel_id: channel_id.Some.0
 def reuse(ctx, r):
     rows = P.table(ctx, CSL + 'remove', ['self', 'channel_id'])
     site = ctx.site(CSL + 'remove')
-    r.check('remove:frees-id', len(rows) == 1 and rows[0].effects == ['std::collections::HashMap::remove(self.slots, channel_id)', 'indexmap::IndexSet::insert(self.freed_channel_ids, channel_id)']
-            and rows[0].value_str() == 'Some(std::collections::HashMap::remove(self.slots, channel_id)?)', site, built=[x.row() for x in rows],
+    REM, INS = 'std::collections::HashMap::remove(self.slots, channel_id)', 'indexmap::IndexSet::insert(self.freed_channel_ids, channel_id)'
+    pure = lambda effs: [e for e in effs if not e.startswith(('let ', 'std::option::Option::is_'))]
+    # either `let e = slots.remove(id)?; freed.insert(id); Some(e)` (one path, `?` hands None on) ...
+    form_a = len(rows) == 1 and pure(rows[0].effects) == [REM, INS] and rows[0].value_str() == 'Some(%s?)' % REM
+    # ... or the same decision spelled out: removed something -> record the id and hand it back; nothing there -> hand None back, record nothing
+    some = [x for x in rows if x.conds == [(REM, 'Some(_)')]]
+    none = [x for x in rows if x.conds == [(REM, 'None')]]
+    form_b = len(rows) == 2 and len(some) == 1 and len(none) == 1 and pure(some[0].effects) == [REM, INS] and some[0].value_str() in (REM, 'Some(%s.Some.0)' % REM) \
+        and pure(none[0].effects) == [REM] and none[0].value_str() in (REM, 'None')
+    r.check('remove:frees-id', form_a or form_b, site, built=[x.row() for x in rows],
             expected='slots.remove(id)? ; freed.insert(id) ; Some(entry)', why='an id removed from the map must become allocatable again')
 
 
